@@ -5,6 +5,8 @@ R1  jam on NUL sets the scan position in every mode: in yylex, on every path fro
     before it is loaded.  At that point it still points past the NUL, so a missing assignment makes the token
     swallow the NUL (D2).  Also: every path from the head of the scan loop to the call of yy_try_NUL_trans passes
     yy_get_previous_state (the NUL transition is tried from the recomputed state).
+    Jam test: yy_try_NUL_trans returns 0 for exactly the table entries on which the match loop of the same variant stops
+    (concrete evaluation on sample entries; full tables encode a jam as the negated state).
 R2  two sentinels wherever the end of valid text is established: yy_get_next_buffer and yy_flush_buffer store 0 at
     yy_ch_buf[n] and yy_ch_buf[n+1] on every path from a store to yy_n_chars to the return; yy_scan_bytes does so on
     its copy before it calls yy_scan_buffer; the shift in yyunput_r moves yy_n_chars + 2 bytes.
@@ -144,6 +146,159 @@ def r1(ctx, sc, lex):
                      witness=witness(cfg, first_ins(hdr), call, avoid=gps, include_start=True), variant=v.describe())
         else:
             rep.ok('C04.R1', '%s yylex: yy_try_NUL_trans@%s is preceded by yy_get_previous_state on every path of the iteration' % (v.name, call.line))
+    return n
+
+# ---------------------------------------------------------------- R1 (jam test)
+
+def table_root(sc, fn, ptr):
+    """canonical name of the scanner table a pointer points into (None if it is not a table)"""
+    a = sc.fa(fn); v = ptr; depth = 0
+    while depth < 12:
+        depth += 1
+        if not isinstance(v, tuple): return None
+        if v[0] == 'glob': return canon(v[1]) if canon(v[1]) in c03.TABLES else None
+        if v[0] in ('cgep', 'ccast'): v = v[2]; continue
+        if v[0] != 'reg': return None
+        d = fn.def_of(v)
+        if d is None: return None
+        if d.op in ('getelementptr', 'bitcast'): v = d.ops[0]; continue
+        if d.op == 'load':
+            l = a.loc(d.ops[0])
+            n = l[1] if l[0] == 'global' else l[2] if l[0] == 'field' else None
+            return canon(n) if n and canon(n) in c03.TABLES else None
+        return None
+    return None
+
+def table_loaded(sc, fn, val):
+    """(table name, load) if the integer value is a scanner-table entry (through casts), else (None, None)"""
+    d = fn.def_of(flow.int_origin(fn, val))
+    if d is not None and d.op == 'load':
+        t = table_root(sc, fn, d.ops[0])
+        if t: return t, d
+    return None, None
+
+def match_loop_test(sc, lex):
+    """the exit test of the match loop of yylex when it is a comparison of the new state with a constant:
+    (icmp, table name or None, how) where how = 'reg' (the table entry itself, full tables: while ((s = yy_nxt[..]) > 0))
+    or 'local' (a reload of the state local, compressed batch: while (s != YY_JAMSTATE))"""
+    a = sc.fa(lex); cfg = sc.prog.cfg(lex)
+    state_locals = set()
+    for c in sc.calls(lex, 'GPS', 'NUL'):
+        for u in lex.uses().get(c.res, []):
+            if u.op == 'store' and u.ops[0] == ('reg', c.res):
+                l = a.loc(u.ops[1])
+                if l[0] == 'local': state_locals.add(l[1])
+    lp = loops(cfg)
+    # the match loop proper: the innermost loop around each read of a buffer byte that feeds a table index
+    match_bodies = []
+    a.table_locals()
+    feeders = []
+    for g in lex.ins:
+        if g.op == 'getelementptr' and a.is_table_ptr(g.ops[0]):
+            for idx in g.ops[1:]:
+                for ext, ld in byte_extensions(sc, lex, idx):
+                    if ld not in feeders: feeders.append(ld)
+    for y in feeders:
+        inner = None
+        for h, bd in lp.items():
+            if y.blk in bd and (inner is None or len(bd) < len(inner)): inner = bd
+        if inner is not None and inner not in match_bodies: match_bodies.append(inner)
+    out = []
+    for x in lex.ins:
+        if x.op != 'icmp' or x.ops[1][0] != 'int': continue
+        br = x.blk.ins[-1]
+        if br.op != 'br' or br.ops != [('reg', x.res)]: continue
+        # innermost loop that contains the test and a read of a buffer byte, with one successor leaving it
+        body = None
+        for bd in match_bodies:
+            if x.blk in bd and (body is None or len(bd) < len(body)): body = bd
+        if body is None or all(t in body for t in cfg.succ[x.blk]): continue
+        t, ld = table_loaded(sc, lex, x.ops[0])
+        if t:
+            stored = any(u.op == 'store' and a.loc(u.ops[1])[0] == 'local' and a.loc(u.ops[1])[1] in state_locals
+                         for r_ in [flow.int_origin(lex, x.ops[0])[1], x.ops[0][1]] for u in lex.uses().get(r_, []))
+            if stored or True: out.append((x, t, 'reg', body))
+            continue
+        d = lex.def_of(flow.int_origin(lex, x.ops[0]))
+        if d is not None and d.op == 'load' and a.loc(d.ops[0])[0] == 'local' and a.loc(d.ops[0])[1] in state_locals:
+            out.append((x, None, 'local', body))
+    return out
+
+def r1_jam(ctx, sc, lex):
+    """the NUL step and the match loop classify the same state values as "no transition".  In full tables a jam is the
+    negated state number, so the match loop runs while the table entry is > 0; yy_try_NUL_trans, which reads the same
+    table, must return 0 (jam) for exactly the entries on which the match loop stops.  Both are evaluated concretely on
+    sample entries (negative, zero, positive and the constants of the two comparisons)."""
+    rep = ctx.rep; v = sc.v
+    nul = sc.fn('NUL')
+    tests = match_loop_test(sc, lex)
+    if nul is None or not tests:
+        c03.vac(rep, v, 'C04.R1 jam test: the match loop of yylex does not end on a comparison of the new state with a constant (interactive compressed tables test yy_base[], -CF walks a pointer)')
+        return 0
+    na = sc.fa(nul); ncfg = sc.prog.cfg(nul)
+    # the store of the new state in yy_try_NUL_trans: the last assignment of a table entry to a local before the return
+    cands = []
+    for st in nul.ins:
+        if st.op != 'store': continue
+        l = na.loc(st.ops[1])
+        if l[0] != 'local': continue
+        t, ld = table_loaded(sc, nul, st.ops[0])
+        if not t: continue
+        others = [y for y in na.local_stores(l[1]) if y is not st]
+        if any(y.op == 'ret' for y in ncfg.reach(st, avoid=others)): cands.append((st, l[1], t))
+    n = 0
+    for x, t, how, body in tests:
+        mine = [c for c in cands if t is None or c[2] == t]
+        if t is not None and not mine:
+            c03.vac(rep, v, 'C04.R1 jam test: yy_try_NUL_trans reads another table (%s) than the match loop (%s): entries are encoded differently' % (sorted({c[2] for c in cands}), t))
+            continue
+        if not mine: continue
+        st, S, tn = mine[-1]
+        consts = {x.ops[1][1]}
+        for y in nul.ins:
+            if y.op == 'icmp' and y.ops[1][0] == 'int': consts.add(y.ops[1][1])
+        samples = sorted({-3, -1, 0, 1, 5} | {c + d for c in consts for d in (-1, 0, 1)})
+        n += 1
+        key0 = 'C04.R1:%s:yy_try_NUL_trans:' % skel(v)
+        bad = None
+        for val in samples:
+            # match loop: does it go on with this entry?
+            a = sc.fa(lex)
+            regs = {}
+            if how == 'reg':
+                o = flow.int_origin(lex, x.ops[0]); regs[o[1]] = val
+                d = lex.def_of(x.ops[0])
+                chain = []
+                while d is not None and d.op in ('sext', 'zext', 'trunc'): chain.append(d); d = lex.def_of(d.ops[0])
+                for d in reversed(chain): regs[d.res] = c03.step_value(lex, a, d, {}, regs, None)
+            else:
+                d = lex.def_of(x.ops[0]); chain = []
+                while d is not None and d.op in ('sext', 'zext', 'trunc'): chain.append(d); d = lex.def_of(d.ops[0])
+                regs[d.res] = val
+                for d in reversed(chain): regs[d.res] = c03.step_value(lex, a, d, {}, regs, None)
+            c = c03.step_value(lex, a, x, {}, regs, None)
+            if c is None: rep.broken('%s: the exit test of the match loop is not a function of the new state' % v.name)
+            br = x.blk.ins[-1]
+            goes_on = lex.bmap[br.targets[0] if c else br.targets[1]] in body
+            # yy_try_NUL_trans returns 0 for jam and the new state otherwise: an entry 0 on which the loop would go on cannot
+            # be told from a jam by the return value (0 is not a state number in that representation): not a sample
+            if val == 0 and goes_on: continue
+            # NUL step: what does it return for this entry?
+            regs = {}
+            if st.ops[0][0] == 'reg': regs[st.ops[0][1]] = val
+            rets = c03.simulate(sc, nul, st, {S: val}, regs=regs)
+            if ('limit',) in rets or None in rets or not rets:
+                rep.broken('%s: yy_try_NUL_trans is not a function of the table entry (returns %s for %d)' % (v.name, sorted(map(str, rets)), val))
+            trans = {r != 0 for r in rets}
+            if trans != {goes_on} and bad is None: bad = (val, goes_on, sorted(rets))
+        if bad:
+            val, goes_on, rets = bad
+            what = 'jam-test-misses-negative-states' if val < 0 and not goes_on else 'jam-test-disagrees-with-match-loop'
+            rep.fail('C04.R1', key0 + what, where(st), 'for the %s entry %d the match loop of yylex (test at line %s) %s, but yy_try_NUL_trans returns %s (%s): a jam on NUL is taken for a transition and the match loop is re-entered with a state that is not one [variant %s]' % (
+                tn, val, x.line, 'goes on' if goes_on else 'stops (no transition)', rets, 'a transition' if any(rets) else 'jam', v.name), variant=v.describe(),
+                replay_input='-Cfe scanner (full table with equivalence classes, no yy_NUL_trans), rule [a-z]+, input "abc\\0"')
+        else:
+            rep.ok('C04.R1', '%s yy_try_NUL_trans and the match loop (test@%s) agree on %d sample %s entries: jam <=> the loop stops' % (v.name, x.line, len(samples), tn))
     return n
 
 # ---------------------------------------------------------------- R2
@@ -738,8 +893,17 @@ def run(ctx):
     rep = ctx.rep
     vs = [v for v in ctx.variants() if c03.usable(v)]
     rep.require(len(vs) >= 60, 'only %d scanner variants compiled to IR' % len(vs))
+    # full tables with equivalence classes keep the NUL transitions inside yy_nxt (mode M4_MODE_NULTRANS_FULLTBL); no core
+    # variant has that mode, so this check instantiates its own probes (same mechanism, set name 'c04')
+    extra = [variants.Variant('%s_Cfe_B' % b, b, variants.PLAIN, ['full', 'ecs', 'batch']) for b in ('nr', 'r', 'cxx', 'c99', 'go')]
+    variants.instantiate(ctx.art, extra, 'c04')
+    have = {v.name for v in vs}
+    extra = [v for v in extra if v.ll is not None and v.name not in have]
+    rep.require(len(extra) + len([v for v in vs if v.name.endswith('_Cfe_B')]) >= 5, 'the -Cfe probe variants did not compile: %s' % [getattr(v, 'll_err', '')[:80] for v in extra])
+    rep.require(all('M4_MODE_NULTRANS_FULLTBL' in variants.mode_symbols(v) for v in extra), 'the -Cfe probes are not in mode M4_MODE_NULTRANS_FULLTBL')
+    vs = vs + extra
     positive_control(ctx)
-    tot = {'R1': 0, 'R2': 0, 'R3': 0, 'R5': 0, 'R6': 0, 'R7': 0, 'R9': 0, 'R5b': 0, 'ecs': 0}
+    tot = {'R1': 0, 'R2': 0, 'R3': 0, 'R5': 0, 'R6': 0, 'R7': 0, 'R9': 0, 'R1jam': 0, 'R5b': 0, 'ecs': 0}
     backends = set()
     for v in vs:
         sc = Scanner(v)
@@ -747,6 +911,7 @@ def run(ctx):
         if lex is None: rep.broken('%s: yylex not found' % v.name)
         backends.add(v.backend)
         tot['R1'] += r1(ctx, sc, lex)
+        tot['R1jam'] += r1_jam(ctx, sc, lex)
         tot['R2'] += r2(ctx, sc)
         tot['R3'] += r3(ctx, sc)
         tot['R5'] += r5(ctx, sc)
@@ -769,6 +934,7 @@ def run(ctx):
     c03.count_guard(rep, tot['R7'] >= 3 * len(vs), 'C04.R7 matched %d loads of saved buffer state, 3 per variant expected (2 in yy_load_buffer_state, 1 in yylex)' % tot['R7'])
     for r in ('C04.R1', 'C04.R2', 'C04.R3', 'C04.R5', 'C04.R6', 'C04.R7'): rep.floor(r, 1, 'see instances_* counters')
     rep.floor('C04.R4', 3, 'ccladd, mkstate, check_char')
+    c03.count_guard(rep, tot['R1jam'] >= 20, 'C04.R1 jam test matched %d instances (full-table and compressed batch variants, and the five -Cfe probes, expected)' % tot['R1jam'])
     c03.count_guard(rep, tot['R5b'] >= 2 * tot['ecs'], 'C04.R5 matched %d loads from yy_ec, 2 per variant with equivalence classes (%d) expected (match loop, yy_get_previous_state)' % (tot['R5b'], tot['ecs']))
     c03.count_guard(rep, tot['R9'] >= 120, 'C04.R9 matched %d EOF comparisons of getc results, 2 per C variant with stdio input expected' % tot['R9'])
     rep.floor('C04.R9', 1, 'EOF comparisons in yyread')
